@@ -352,6 +352,24 @@ def x_run(ctx, case):
         mod.load_tests = lambda loader, tests, pattern: build(tree, cls, runlog)
         names = []
     sys.modules[modname] = mod
+    runner_kw = {}
+    if case.get("bare_runner"):
+        import testtools
+
+        class BareRunner:
+            """A runner class without a list() method: TestProgram prints the ids itself."""
+
+            def __init__(self, verbosity=None, failfast=None, buffer=None, stdout=None, tb_locals=False):
+                self.stdout = stdout
+
+            def run(self, test):
+                result = testtools.TextTestResult(self.stdout)
+                result.startTestRun()
+                try:
+                    return test.run(result)
+                finally:
+                    result.stopTestRun()
+        runner_kw = {"testRunner": BareRunner}
     d = tempfile.mkdtemp(prefix="tvm-c19-")
     try:
         if case.get("after_failed_import"):
@@ -365,7 +383,7 @@ def x_run(ctx, case):
                 pass
         out = io.StringIO()
         try:
-            TestProgram(module=mod, argv=["prog", "--list"] + names, stdout=out, exit=False)
+            TestProgram(module=mod, argv=["prog", "--list"] + names, stdout=out, exit=False, **runner_kw)
         except SystemExit as e:
             ctx.check(False, "run.list-prints-exactly-the-ids", {"SystemExit": repr(e.code)})
         listed = out.getvalue().split("\n")
@@ -379,7 +397,7 @@ def x_run(ctx, case):
             f.write(sep.join(keep).encode("utf-8") + (sep.encode() if keep and style < 3 else b""))
         del runlog[:]
         out = io.StringIO()
-        TestProgram(module=mod, argv=["prog", "--load-list", path] + names, stdout=out, exit=False)
+        TestProgram(module=mod, argv=["prog", "--load-list", path] + names, stdout=out, exit=False, **runner_kw)
         want = [i for i in L if i in set(keep)]
         ctx.check(runlog == want, "run.load-list-runs-exactly-the-listed",
                   lambda: {"ran": runlog, "want": want, "tree": tree, "keep": keep})
@@ -390,7 +408,8 @@ def x_run(ctx, case):
         del runlog[:]
         out = io.StringIO()
         try:
-            TestProgram(module=mod, argv=["prog", "--list", "--load-list", path] + names, stdout=out, exit=False)
+            TestProgram(module=mod, argv=["prog", "--list", "--load-list", path] + names, stdout=out, exit=False,
+                        **runner_kw)
         except SystemExit as e:
             ctx.check(False, "run.list-prints-exactly-the-ids", {"SystemExit": repr(e.code), "with": "--load-list"})
         listed = out.getvalue().split("\n")
@@ -474,9 +493,43 @@ def x_discover(ctx, case):
     return True
 
 
-SUBCHECKS = {"tree": x_tree, "run": x_run, "subprocess": x_subprocess, "discover": x_discover}
+def x_iter_special(ctx, case):
+    """iterate_tests on suites that are not plain trees of distinct objects: the same sub-suite object placed at
+    two positions (its tests are yielded at both), and suites whose __iter__ hands out short-lived wrapper suites."""
+    from testtools import iterate_tests, PlaceHolder
+    from testtools.testsuite import sorted_tests
+    ids = ["t%d" % i for i in range(case["n"])]
+    if case["how"] == "shared":
+        shared = unittest.TestSuite([PlaceHolder(i) for i in ids])
+        before = [PlaceHolder("first")]
+        suite = unittest.TestSuite(before + [shared, unittest.TestSuite([PlaceHolder("mid"), shared])])
+        want = ["first"] + ids + ["mid"] + ids
+    else:
+        class Wrapping(unittest.TestSuite):
+            def __iter__(self):
+                for t in self._tests:
+                    yield unittest.TestSuite([t])       # a fresh, short-lived suite per child
+        suite = unittest.TestSuite([Wrapping([PlaceHolder(i) for i in ids])])
+        want = list(ids)
+    got = [t.id() for t in iterate_tests(suite)]
+    ctx.check(got == want, "iterate.every-leaf-once-in-order", lambda: {"case": case, "got": got, "want": want})
+    dup = len(set(want)) != len(want)
+    try:
+        sorted_tests(suite)
+        raised = None
+    except ValueError as e:
+        raised = e
+    ctx.check((raised is not None) == dup, "sorted.valueerror-iff-duplicate",
+              lambda: {"case": case, "raised": repr(raised), "duplicates": dup})
+    return True
 
-ID_POOL = ["a", "b", "c", "d", "mod.T.test_x", "mod.T.test_x (slow)", "mod.T.test y[big endian]",
+
+SUBCHECKS = {"tree": x_tree, "run": x_run, "subprocess": x_subprocess, "discover": x_discover,
+             "iter_special": x_iter_special}
+
+# (U+2028 and form feed are line breaks to str.splitlines() but not to a bytes-wise readlines(); they are
+# neither leading nor trailing here)
+ID_POOL = ["mod.T.test_\u2028param", "mod.T.test\x0cff", "a", "b", "c", "d", "mod.T.test_x", "mod.T.test_x (slow)", "mod.T.test y[big endian]",
            "é.test", "z z", "B", "a.b", "a b"]
 
 
@@ -568,14 +621,19 @@ def run(ctx):
         keep = [x for x in dict.fromkeys(L) if rng.random() < 0.5] + (["absent id"] if rng.random() < 0.3 else [])
         rng.shuffle(keep)
         ctx.execute("run", {"tree": tree, "keep": keep, "style": rng.randrange(6),
-                            "after_failed_import": rng.random() < 0.3, "via_load_tests": rng.random() < 0.4})
+                            "after_failed_import": rng.random() < 0.3, "via_load_tests": rng.random() < 0.4,
+                            "bare_runner": rng.random() < 0.3})
+    for how in ("shared", "wrapping"):
+        for k in (1, 2, 3, 6, 12):
+            ctx.execute("iter_special", {"how": how, "n": k})
     for top in KINDS:
         if top == "fixturesuite":
             continue
         for keep in ([], ["b"], ["a", "c"], ["c", "absent"]):
             for via in (True, False):
                 tree = [top, [["leaf", "a"], ["plain", [["leaf", "b"]]], ["leaf", "c"]]]
-                ctx.execute("run", {"tree": tree, "keep": keep, "style": 0, "via_load_tests": via})
+                ctx.execute("run", {"tree": tree, "keep": keep, "style": 0, "via_load_tests": via,
+                                    "bare_runner": bool(len(keep) % 2)})
     for i in range(ctx.scale(3, 32)):
         ids = fresh_ids(rng)
         tree = ["plain", [["leaf", next(ids)], ["custom", [["leaf", next(ids)], ["leaf", next(ids)]]],
